@@ -330,9 +330,9 @@ Definition first_timeout_ok (c : c5) (t : Z) : bool :=
               end
   end.
 
-(* Which of the expensive clauses are enforced.  check_c05 enforces all of them; the flags exist
-   so that theorems about the model can be stated for the part of the checker that has been
-   proved so far (a checker with fewer clauses accepts more traces, see checks5_mono). *)
+(* Which of the expensive clauses are enforced.  check_c05 enforces all of them (and that is the
+   checker the model is proved against, EventsRun5.model_trace_accepted5 holds for every setting
+   of the flags); the flags only make it possible to run a part of the checker on its own. *)
 Record c5flags := {
   f_tmin : bool;       (* a timer that fires has a minimal deadline *)
   f_quiet : bool;      (* ... and fires only right after a zero-timeout poll that reported nothing *)
